@@ -67,6 +67,8 @@ CHECKS = {
             {"name": "paths", "pkg": "interceptor", "run": "^TestVF_C14_Paths$", "rapid": False},
             {"name": "random", "pkg": "interceptor", "run": "^TestVF_C14_Random$",
              "checks": {"quick": 4000, "thorough": 40000}, "shards": {"quick": 1, "thorough": 8}},
+            {"name": "direction", "pkg": "proxy", "run": "^TestVF_C14_Direction$",
+             "checks": {"quick": 400, "thorough": 4000}, "shards": {"quick": 2, "thorough": 8}},
         ],
     },
     "C16": {
